@@ -31,6 +31,11 @@ const ALPHA: [(&str, bool); 16] = [
     ("potato", true),
 ];
 
+/// Alphabet of the flag-toggling histories: six queries and the two settings changes a frontend
+/// can make between queries (rink-js exposes setSavePreviousResult; the field is public).
+const TOG: [(&str, bool); 6] = [("3 m", true), ("ans * 2", true), ("1 m + 1 s", true), ("3 m -> ft", false), ("7 kg", true), ("_ -> digits 3", false)];
+const TOG_LETTERS: u64 = 8;
+
 pub struct C15 {
     fams: Fams,
     depth: u64,
@@ -50,6 +55,9 @@ impl C15 {
         let d_off = if thorough { depth } else { depth - 1 };
         fams.add("all histories, flag off", vec![1, (ALPHA.len() as u64).pow(d_off as u32)]);
         fams.add("de Bruijn sequence on one long-lived context x flag", vec![2]);
+        // histories in which the flag is switched between queries
+        let d_tog = if thorough { 6 } else { 4 };
+        fams.add("all histories over 6 queries + flag on + flag off", vec![TOG_LETTERS.pow(d_tog)]);
         C15 { fams, depth, db_order, pristine: Lazy::new(), reg_hash: Lazy::new() }
     }
 }
@@ -119,7 +127,7 @@ struct Stepper<'a> {
     states: Vec<u64>,
     transitions: u64,
     bad: Vec<(String, String)>,
-    history: Vec<usize>,
+    history: Vec<String>,
 }
 
 impl<'a> Stepper<'a> {
@@ -131,17 +139,30 @@ impl<'a> Stepper<'a> {
     }
 
     fn hist_text(&self) -> String {
-        self.history.iter().map(|i| ALPHA[*i].0).collect::<Vec<_>>().join(" ; ")
+        self.history.join(" ; ")
+    }
+
+    fn set_flag(&mut self, on: bool) {
+        self.history.push(format!("<flag {}>", if on { "on" } else { "off" }));
+        self.l.save_previous_result = on;
+        self.flag = on;
+        self.fp0.11 = on;
+        self.states.push(state_key(&self.reg, self.flag));
     }
 
     fn step(&mut self, letter: usize) {
         let (q, plain) = ALPHA[letter];
-        self.history.push(letter);
+        self.step_q(q, plain)
+    }
+
+    fn step_q(&mut self, q: &str, plain: bool) {
+        self.history.push(q.to_string());
         // subject: the public helper, on the long-lived context
         let got = rink_core::eval(&mut self.l, q);
         // reference: a pristine context evaluated through a shared reference, with only the
         // previous answer and the clock preset
         self.p.previous_result = self.reg.clone();
+        self.p.save_previous_result = self.flag;
         self.p.now = self.l.now;
         let want = {
             let pr: &Context = &*self.p;
@@ -192,6 +213,16 @@ impl<'a> Stepper<'a> {
 }
 
 impl C15 {
+    fn tog_depth(&self) -> usize {
+        let n = self.fams.fams[3].1[0];
+        let mut d = 0;
+        let mut x = 1u64;
+        while x < n {
+            x *= TOG_LETTERS;
+            d += 1;
+        }
+        d
+    }
     fn hist_depth(&self, fam: usize) -> usize {
         let n = self.fams.fams[fam].1[1];
         let mut d = 0;
@@ -209,7 +240,7 @@ impl Space for C15 {
         Meta {
             id: "C15",
             level: "model_checking",
-            rule: format!("explicit-state exploration over a 16-query alphabet (one per reply kind and per way of touching ans: numbers, ans/_/ANS uses, an error, conversions, a definition lookup, units for, search, a time-valued result, a substance, a date, a unit list, an inline definition and a use of its name) with the feature flag on and off: every history up to depth {} is replayed on a freshly loaded real Context through rink_core::eval, and one long-lived Context is fed a de Bruijn sequence B(16,{}) (every length-{} window from a different non-initial state). Model = one register (ans). At every transition: serialised reply == reply of a pristine context evaluated through a shared reference with previous_result := register; ans == register; registry sizes/settings unchanged; full Debug dump of the registry compared at the end of histories. state = (register value, dimensionality, flag)", self.depth, self.db_order, self.db_order),
+            rule: format!("explicit-state exploration over a 16-query alphabet (one per reply kind and per way of touching ans: numbers, ans/_/ANS uses, an error, conversions, a definition lookup, units for, search, a time-valued result, a substance, a date, a unit list, an inline definition and a use of its name) with the feature flag on and off: every history up to depth {} is replayed on a freshly loaded real Context through rink_core::eval, and one long-lived Context is fed a de Bruijn sequence B(16,{}) (every length-{} window from a different non-initial state). Plus every history of depth {} over 6 queries and the two settings changes <flag on>/<flag off> made between queries on one context (initially off). Model = one register (ans) and the flag. At every transition: serialised reply == reply of a pristine context evaluated through a shared reference with previous_result := register; ans == register; registry sizes/settings unchanged; full Debug dump of the registry compared at the end of histories. state = (register value, dimensionality, flag)", self.depth, self.db_order, self.db_order, self.tog_depth()),
             assumptions: vec![
                 "the model register is updated from the pristine context's reply, so the reference is exactly the statement's 'fresh context with the same previous answer'".into(),
                 "full registry dumps are compared at the end of every 16th history (every history in the thorough tier) and every 512 steps of the de Bruijn run; cheap size fingerprints at every transition".into(),
@@ -226,6 +257,9 @@ impl Space for C15 {
         if f < 2 {
             let letters = decode(d[1], &vec![ALPHA.len() as u64; self.hist_depth(f)]);
             format!("flag {}: {}", f == 0, letters.iter().map(|i| ALPHA[*i as usize].0).collect::<Vec<_>>().join(" ; "))
+        } else if f == 3 {
+            let letters = decode(d[0], &vec![TOG_LETTERS; self.tog_depth()]);
+            format!("flag initially off: {}", letters.iter().map(|i| match *i { 6 => "<flag on>", 7 => "<flag off>", k => TOG[k as usize].0 }).collect::<Vec<_>>().join(" ; "))
         } else {
             format!("flag {}: de Bruijn sequence B(16,{}) on one context", d[0] == 1, self.db_order)
         }
@@ -237,8 +271,8 @@ impl Space for C15 {
         std::time::Duration::from_secs(300)
     }
     fn heavy(&self) -> Vec<(u64, u64)> {
-        let n = self.fams.total();
-        vec![(n - 2, n)]
+        let n = self.fams.fams[0].2 + self.fams.fams[1].2;
+        vec![(n, n + 2)]
     }
     fn reset(&mut self) {
         self.pristine.clear();
@@ -253,9 +287,10 @@ impl Space for C15 {
     }
     fn run(&mut self, idx: u64) -> CaseOut {
         let (f, d) = self.fams.locate(idx);
-        let flag = if f < 2 { f == 0 } else { d[0] == 1 };
+        let flag = if f < 2 { f == 0 } else if f == 3 { false } else { d[0] == 1 };
         let hist_depth = if f < 2 { self.hist_depth(f) } else { 0 };
         let thorough = self.depth >= 4;
+        let tog_depth = if f == 3 { self.tog_depth() } else { 0 };
         let ref_hash = *self.reg_hash.get(|| hash64(&format!("{:?}", fresh_ctx().registry)));
         let p = self.pristine.get(fresh_ctx);
         let mut st = Stepper::new(p, flag);
@@ -271,12 +306,27 @@ impl Space for C15 {
                     st.bad.push(("database changed by a query (full dump)".into(), format!("after [{}]", st.hist_text())));
                 }
             }
+        } else if f == 3 {
+            let letters = decode(d[0], &vec![TOG_LETTERS; tog_depth]);
+            for l in letters {
+                match l {
+                    6 => st.set_flag(true),
+                    7 => st.set_flag(false),
+                    k => st.step_q(TOG[k as usize].0, TOG[k as usize].1),
+                }
+            }
+            if thorough || d[0] % 64 == 0 {
+                full += 1;
+                if st.full_dump_hash() != ref_hash {
+                    st.bad.push(("database changed by a query (full dump)".into(), format!("after [{}]", st.hist_text())));
+                }
+            }
         } else {
             let seq = de_bruijn(ALPHA.len(), self.db_order as usize);
             for (i, l) in seq.iter().enumerate() {
                 st.step(*l);
                 st.history.clear(); // keep messages short: the window is what matters
-                st.history.push(*l);
+                st.history.push(ALPHA[*l].0.to_string());
                 if i % 512 == 511 {
                     full += 1;
                     if st.full_dump_hash() != ref_hash {
@@ -290,7 +340,7 @@ impl Space for C15 {
                 st.bad.push(("database changed by a query (full dump)".into(), "end of de Bruijn run".to_string()));
             }
         }
-        let mut out = CaseOut::ok(if f < 2 { "history" } else { "de Bruijn run" });
+        let mut out = CaseOut::ok(if f < 2 { "history" } else if f == 3 { "history with flag changes" } else { "de Bruijn run" });
         out.keys = st.states.clone();
         out = out.count("transitions", st.transitions).count("histories", 1).count("full_dumps", full);
         // one report per distinct signature per history
